@@ -22,7 +22,7 @@ META = {
         'rewritten by aesthetics(); the no-good-pixel exit returns the zero-initialised arrays; C11.PER-EXPOSURE - the output '
         'pixels that receive inverse variance from exposure j are those between that exposure\'s own minimum and maximum '
         'wavelength; C11.SCALE-FREE - no decision inside combine1fiber compares a flux-scaled quantity with an absolute tolerance or identifies two grids by a tolerance test, and the inverse-variance interpolation runs for every overlapping exposure; C11.ZSHIFT - in preprocess_spectra the wavelength argument of combine1fiber is rowloglam - logshift[iobj] '
-        'with logshift = log10(1 + zfit), computed afresh for every object (no in-place accumulation). NOT decided: ivar >= 0, '
+        'with logshift = log10(1 + zfit), computed afresh for every object (no in-place accumulation). C11.SCALE-FREE also: no inverse-variance-scaled quantity is compared with an absolute tolerance, and the rejection fit never receives synthetic unit weights when objivar is None; C11.BMASK-KIND - `~bmask` is reached only by the boolean mask of a fit (float masks of unfitted groups are excluded through the correlated fact sset is None). NOT decided: ivar >= 0, '
         'exact zeros outside good neighbours, identity on the same grid, scaling laws, interpolation bound (numerical).'),
     'floors': {'C11.BMASK-KIND': 1, 'C11.DTYPE-MIX': 5, 'C11.EMPTY-AGG': 6, 'C11.SCRUB': 4, 'C11.PER-EXPOSURE': 1, 'C11.ZSHIFT': 2, 'C11.SCALE-FREE': 4, 'C11.NONE-DEREF': 1},
     'trusted_base': ['NumPy 2 (NEP 50): a signed integer array and a numpy.uint64 scalar have no common integer type for bitwise ufuncs'],
